@@ -487,17 +487,26 @@ func (db *ContractDB) LoadContractsFor(pkgPaths []string, verifDir string) (map[
 		inRepo := filepath.Join(repoDir(), rel, "verif_contracts.go")
 		mirror := filepath.Join(verifDir, "contracts", rel, "verif_contracts.go")
 		var path string
-		if os.Getenv("GOVC_CONTRACTS") == "mirror" {
-			if _, err := os.Stat(mirror); err == nil {
-				path = mirror
+		_, errRepo := os.Stat(inRepo)
+		_, errMirror := os.Stat(mirror)
+		switch {
+		case errRepo == nil && errMirror == nil:
+			// both exist: they are kept identical by sync-contracts.sh; if they
+			// differ, the copy in /repo is the annotation of record unless the
+			// developer asks for the mirror.
+			a, _ := os.ReadFile(inRepo)
+			b, _ := os.ReadFile(mirror)
+			path = inRepo
+			if string(a) != string(b) {
+				if os.Getenv("GOVC_CONTRACTS") != "repo" {
+					path = mirror
+					fmt.Fprintf(os.Stderr, "note: %s differs from the copy in /repo; using the /verif mirror (run sync-contracts.sh)\n", mirror)
+				}
 			}
-		}
-		if path == "" {
-			if _, err := os.Stat(inRepo); err == nil {
-				path = inRepo
-			} else if _, err := os.Stat(mirror); err == nil {
-				path = mirror
-			}
+		case errRepo == nil:
+			path = inRepo
+		case errMirror == nil:
+			path = mirror
 		}
 		if path == "" {
 			continue
